@@ -220,6 +220,10 @@ func (l *Gpos4_1) encode() []byte {
 			}
 		}
 	}
+	if baseArrayOffset > 0xFFFF || baseCount*markClassCount > (65536-6-2)/2 {
+		// 16-bit offsets; the second bound is the one readGpos4_1 enforces
+		panic("GPOS 4.1 subtable too large")
+	}
 	res := make([]byte, 0, total)
 
 	res = append(res,
@@ -239,6 +243,9 @@ func (l *Gpos4_1) encode() []byte {
 	)
 	offs := 2 + 4*markCount
 	for _, rec := range l.MarkArray {
+		if offs > 0xFFFF {
+			panic("GPOS 4.1 mark array too large")
+		}
 		res = append(res,
 			byte(rec.Class>>8), byte(rec.Class),
 			byte(offs>>8), byte(offs),
@@ -258,6 +265,9 @@ func (l *Gpos4_1) encode() []byte {
 			if rec.IsEmpty() {
 				res = append(res, 0, 0)
 				continue
+			}
+			if offs > 0xFFFF {
+				panic("GPOS 4.1 base array too large")
 			}
 			res = append(res,
 				byte(offs>>8), byte(offs),
